@@ -732,6 +732,9 @@ func buildOracle(c *pcase) string {
 	anyQ, anyU := false, false
 	for _, f := range formats {
 		digitRuns(f, precs)
+		if strings.Contains(f, ".") {
+			precs[0] = true // "%.v": a precision of zero without a digit
+		}
 		if strings.ContainsAny(f, "q#") {
 			anyQ = true
 		}
